@@ -281,6 +281,8 @@ def check_writer_body(rep, facts):
                 okinit = True
             if want == "content_length" and v[0] == 'field' and v[2] == 'content_length':
                 okinit = True
+            if want == "content_length" and any(v == ir.peel(g.arg(sn, 1)) for sn in starts if in_lock_init(sn)):
+                okinit = True       # the very value handed to set_lengths (which stores it as content_length: R17.6), kept in a local
         if not okinit:
             rep.violation("R10.3", "poll_write/%s-init" % fld, "%s is not initialised (%s) when a record starts" % (fld, want), body.loc())
         else:
